@@ -353,6 +353,8 @@ pub open spec fn told_already_bound(sent: Seq<Frame>) -> bool {
     sent.len() > 0 && sent.last() is Error && sent.last()->Error_0.code == 5
 }
 pub open spec fn opt_seq<T>(o: Option<T>) -> Seq<T> { match o { Some(x) => seq![x], None => Seq::empty() } }
+// the parked frame if it is a reply (a Message); what else a replier may send is not a reply and may be discarded anywhere
+pub open spec fn reply_seq(o: Option<Frame>) -> Seq<Frame> { match o { Some(x) => if x is Message { seq![x] } else { Seq::empty() }, None => Seq::empty() } }
 // the request as the replier must see it: origin tag forced to the id of the stream it arrived on, rest intact
 pub open spec fn tagged(orig: MessagePayload, id: usize, out: MessagePayload) -> bool {
     out.message == orig.message && out.headers is Some
@@ -388,16 +390,23 @@ pub open spec fn replier_may_go<E, E2>(s: Option<(BoxSink<Frame, E>, BoxStream<R
             self.next_id + self.budget() <= old(self).next_id + old(self).budget(),
             self.handle.closed() == old(self).handle.closed(), self.handle.coop() == old(self).handle.coop(),
             old(self).handle.coop() && old(self).all_coop() ==> self.all_coop(),
-            // every reply taken from the replier is handed to the requestors' router exactly once, in order (ghost ledger)
-            g_rep_in =~= g_rep_out + opt_seq(self.buffered_rep),                                                         // [C02.reply_handed_over_exactly_once]
+            // every reply (Message frame) taken from the replier is handed to the requestors' router exactly once, in order (ghost ledger)
+            g_rep_in =~= g_rep_out + reply_seq(self.buffered_rep),                                                         // [C02.reply_handed_over_exactly_once]
+            // every request parked for the replier leaves the slot exactly once: handed to the replier's sink, or given up because no
+            // replier is bound -- nothing is ever put (back) into the slot that was not just taken from a requestor's stream
+            g_req_in =~= g_req_gone + opt_seq(self.buffered_req),                                                       // [C02.request_handed_over_at_most_once]
         decreases self.budget(), self.aux()
 //@hint before "=loop"
-    let ghost mut g_rep_in: Seq<Frame> = opt_seq(self.buffered_rep);
+    let ghost mut g_rep_in: Seq<Frame> = reply_seq(self.buffered_rep);
     let ghost mut g_rep_out: Seq<Frame> = Seq::empty();
+    let ghost mut g_req_in: Seq<Frame> = opt_seq(self.buffered_req);
+    let ghost mut g_req_gone: Seq<Frame> = Seq::empty();
 //@hint arm "Poll::Ready(Some(Ok(item))) =>"
-                    proof { g_rep_in = g_rep_in.push(item); }
+                    proof { if item is Message { g_rep_in = g_rep_in.push(item); } }
 //@hint before "let r = self.sink.start_send("
-            proof { g_rep_out = g_rep_out.push(self.buffered_rep->Some_0); }
+            proof { if self.buffered_rep->Some_0 is Message { g_rep_out = g_rep_out.push(self.buffered_rep->Some_0); } }
+//@hint arm "Ok(()) => if let Err(e) = si.start_send(self.buffered_req.take()"
+                    proof { g_req_gone = g_req_gone.push(self.buffered_req->Some_0); }
 //@hint arm "Frame::Message(mut payload) =>"
                     let ghost p0 = payload;
 //@hint before "self.buffered_req = Some(Frame::Message(payload));"
@@ -410,6 +419,11 @@ pub open spec fn replier_may_go<E, E2>(s: Option<(BoxSink<Frame, E>, BoxStream<R
 //@hint before "self.buffered_req = Some(Frame::Message(payload));"
                     // a request waiting for a bound replier is never overwritten
                     proof { assert(self.buffered_req is None || self.server is None); }                                  // [C02.request_not_dropped_while_bound]
+//@hint before "self.buffered_req = Some(Frame::Message(payload));"
+                    proof {
+                        if self.buffered_req is Some { g_req_gone = g_req_gone.push(self.buffered_req->Some_0); }
+                        g_req_in = g_req_in.push(Frame::Message(payload));
+                    }
 //@hint before "self.sink.insert(self.next_id, si);"
                             proof { assert(!self.sink.view().contains_key(self.next_id)); }                             // [C02.requestor_ids_never_reused]
 //@hint before "self.buffered_err = Some((Some(error_payload), si));"
